@@ -16,7 +16,7 @@ THEOREMS = ["Cxx.C03_access_tracks", "Cxx.C03_member_access", "Cxx.C03_stack_ref
     "Cxx.C03_class_body",
     "Cxx.C03_class_source",
     "Cxx.C03_nested_class",
-    "Cxx.C03_cv_field", "Cxx.toplevel_field_gen", "Cxx.C03_field_general", "Cxx.toplevel_field_pre", "Cxx.C03_method_general", "Cxx.toplevel_method_gen", "Cxx.C03_array_field", "Cxx.toplevel_field_array_pre", "Cxx.C03_bitfield_member", "Cxx.toplevel_field_bits_pre"]
+    "Cxx.C03_cv_field", "Cxx.toplevel_field_gen", "Cxx.C03_field_general", "Cxx.toplevel_field_pre", "Cxx.C03_method_general", "Cxx.toplevel_method_gen", "Cxx.C03_array_field", "Cxx.toplevel_field_array_pre", "Cxx.C03_bitfield_member", "Cxx.toplevel_field_bits_pre", "Cxx.C03_method_definition", "Cxx.declarator_method_body"]
 ANCHORS = ["parser.py:CxxParser._parse_class_decl", "parser.py:CxxParser._parse_class_decl_base_clause", "parser.py:CxxParser._process_access_specifier",
            "parser.py:CxxParser._parse_method_end", "parser.py:CxxParser._parse_function", "parser.py:CxxParser._parse_decl", "parser.py:CxxParser._parse_field",
            "parser.py:CxxParser._finish_class_or_enum", "parser.py:CxxParser._finish_class_decl", "parser.py:CxxParser._on_block_end", "parser.py:CxxParser._pop_state",
